@@ -29,6 +29,9 @@ pub fn vpanic() -> !
     requires false
 { std::panic!() }
 
+/// vacuity twins (DESIGN.md 3.8): each contracted function must FAIL to prove its own marker
+pub uninterp spec fn vac_marker(i: int) -> bool;
+
 pub open spec fn all_ascii(s: Seq<u8>) -> bool { forall|i: int| 0 <= i < s.len() ==> s[i] < 128 }
 
 /// Rust fact: slices, strs and Vecs have at most isize::MAX elements.
